@@ -29,7 +29,7 @@ ASSUMPTIONS = [
 MINIMUM = {"syncs": 120, "entries_compared": 3000, "symlinks_compared": 100, "resync_steps": 60}
 SHARD_TIMEOUT = {"quick": 150, "thorough": 3000}
 
-NAMES = ["a", "b.txt", "with space", "ünï-cödé", "-dash", "new\nline", "日本", "x" * 40, ".hidden", "tab\there", "q'uote\"", "CAPS"]
+NAMES = ["a", "a.tmp", "b.txt", "b.txt.tmp", "b.txt~", ".b.txt.swp", "with space", "ünï-cödé", "-dash", "new\nline", "日本", "x" * 40, ".hidden", "tab\there", "q'uote\"", "CAPS"]
 
 
 def shards(tier, seed):
@@ -206,6 +206,19 @@ def gen_prior(rng, src, dst):
                 pass
         os.makedirs(os.path.join(dst, "unrelated-dir", "deep"), exist_ok=True)
         write_file(rng, os.path.join(dst, "unrelated-dir", "deep", "f"), 5)
+        # unrelated entries whose names are a source file's name plus a typical scratch suffix
+        for d, dn, fn in os.walk(src):
+            for n in fn[:2]:
+                tdir = os.path.join(dst, os.path.relpath(d, src))
+                if os.path.isdir(tdir) and not os.path.islink(tdir):
+                    for suffix in (".tmp", "~"):
+                        pth = os.path.join(tdir, n + suffix)
+                        if not os.path.lexists(pth) and not os.path.lexists(os.path.join(d, n + suffix)):
+                            try:
+                                write_file(rng, pth, 7)
+                            except OSError:
+                                pass
+            break
     return how
 
 
@@ -354,6 +367,12 @@ def run_shard(spec):
             outside = os.path.join(case, "outside")
             os.makedirs(src)
             os.makedirs(outside)
+            if ci % 4 == 2:
+                # the source directory is reached through a symlinked path component (absolute links inside the tree are
+                # written with that same spelling, as by somebody working under that path)
+                os.symlink(case, os.path.join(case, "lnk-to-case"))
+                src = os.path.join(case, "lnk-to-case", os.path.basename(src))
+                res.count("sources_behind_a_symlinked_component")
             gen_tree(rng, src)
             add_symlinks(rng, src, outside)
             if ci % 6 == 1:
@@ -376,6 +395,10 @@ def run_shard(spec):
                 hows.append(gen_prior(rng, src, d))
                 priors.append(snapshot(d))
             cwdkind = rng.choice(("outside", "source_root", "source_subdir", "inside_target", "relative_source"))
+            if "lnk-to-case" in src and cwdkind in ("relative_source", "source_root", "source_subdir"):
+                # (a working directory inside the aliased tree is reported by the OS under its physical name: a relative
+                #  source path would then name the tree by another spelling than the links inside it use)
+                cwdkind = rng.choice(("outside", "inside_target"))
             nsteps = rng.choice((0, 1, 2, 4))
             for step in range(nsteps + 1):
                 if step:
